@@ -19,8 +19,8 @@ def edges(n, nsym, pred):
     return hex(m)
 
 # OP: 0 Union, 1 UnionDisjointStates, 2 Intersection (two operands A, B); 3 Reverse, 4 RemoveUnreachableStates,
-#     5 RemoveUselessStates, 6 GetCandidateTree (one operand A; NB is unused).  Shapes as in checks.d/C09.py.
-UNARY, BINARY = (3, 4, 5, 6), (0, 1, 2)
+#     5 RemoveUselessStates, 6 GetCandidateTree, 7 Reverse followed by GetCandidateTree (one operand A; NB is unused).  Shapes as in checks.d/C09.py.
+UNARY, BINARY = (3, 4, 5, 6, 7), (0, 1, 2)
 UN_QUICK = [
   FAB(2, 1, 2),                                             # 12 bits: two states, letters a,b, everything free
   FAB(3, 1, 1),                                             # 15 bits: three states, one letter
@@ -63,7 +63,7 @@ CHECKS = {
                              + (ops(BIN_QUICK, (op,), PRUNE=1) + ops(BIN_QUICK, (op,), PRUNE=2) if op in BINARY else [])
                              + (ops(UN_QUICK[:2], (op,), PRUNE=2) if op in (3, 6) else []) + (ops(UN_QUICK[:2], (op,), PRUNE=1) if op == 6 else [])},
      'selftest_config': FAB(2, 1, 2, OP=op) if op in UNARY else FAB(1, 2, 2, OP=op), 'selftests': ['VS_SELFTEST_1']}
-    for op, name in [(0, 'union'), (1, 'union_disjoint'), (2, 'isect'), (3, 'reverse'), (4, 'unreach'), (5, 'useless'), (6, 'witness')]
+    for op, name in [(0, 'union'), (1, 'union_disjoint'), (2, 'isect'), (3, 'reverse'), (4, 'unreach'), (5, 'useless'), (6, 'witness'), (7, 'reverse_witness')]
   ],
  },
 }
